@@ -88,12 +88,136 @@ def rules_c(ctx, F):
                    "ts_language_table_entry(language, state, symbol(cache->token), table_entry) precedes can_reuse_first_leaf")
 
 
+def rules_pairing(ctx, F):
+    from cstores import stores, writes_record, heap_store
+    # ---------------- P1: an invalid reuse is undone -------------------------------------------
+    fn = ctx.need_fn(F, "ts_parser__advance")
+    if fn:
+        shift = [pt for pt, n in find(fn, "ts_parser__shift(self, version, _, lookahead, _)")]
+        recover = [pt for pt, n in find(fn, "ts_parser__recover(self, version, lookahead)")]
+        bl = [pt for pt, n in find(fn, "ts_parser__breakdown_lookahead(self, &lookahead, _, &self->reusable_node)")]
+        ctx.floor("breakdown_lookahead calls in ts_parser__advance", len(bl), 2)
+        ctx.gate("P1", fn, shift, [("a reused subtree with children is broken down to the current state before it is shifted",
+                                    [("ts_subtree_child_count(lookahead) > 0", False), ("ts_parser__breakdown_lookahead(self, &lookahead, state, &self->reusable_node)", "stmt")])],
+                 accept_desc="shifting the lookahead")
+        # in the Recover arm the recover call that follows a possible breakdown
+        dom = dominators(fn)
+        arm = [e.to for b in fn.blocks.values() for e in b.succs if isinstance(e.lab, dict) and e.lab.get("name") == "TSParseActionTypeRecover"]
+        rec_arm = [p for p in recover if arm and arm[0] in dom.get(p[0], set())]
+        ctx.gate("P1", fn, rec_arm[-1:], [("a reused subtree with children is broken down before error recovery consumes it",
+                                            [("ts_subtree_child_count(lookahead) > 0", False), ("ts_parser__breakdown_lookahead(self, &lookahead, 0, &self->reusable_node)", "stmt")])],
+                 accept_desc="recovering with the lookahead")
+        pause = [pt for pt, n in find(fn, "ts_stack_pause(self->stack, version, lookahead)")]
+        bts = [pt for pt, n in find(fn, "ts_parser__breakdown_top_of_stack(self, version)")]
+        ctx.before("P1", "ts_parser__advance:breakdown-before-declaring-error", fn, pause, bts,
+                   "before a version is paused as erroneous, the reused subtree on top of the stack is broken down and the lookahead retried")
+        ctx.gate("P1", fn, pause, [("…and only when nothing was left to break down", "ts_parser__breakdown_top_of_stack(self, version)", False)], accept_desc="pausing the version")
+        adv = [pt for pt, n in find(fn, "reusable_node_advance(&self->reusable_node)")]
+        ctx.gate("P1", fn, adv, [("the old-tree walk advances only past a node that was actually reused", "did_reuse", True)], accept_desc="advancing the reusable node")
+    # ---------------- P2: look-ahead accounting in ts_parser__lex ------------------------------
+    fn = ctx.need_fn(F, "ts_parser__lex")
+    if fn:
+        scans = [pt for pt, n in find(fn, "ts_parser__external_scanner_scan(self, _)")] + [pt for pt, n in find(fn, "ts_parser__call_main_lex_fn(self, _)")]
+        fin = [pt for pt, n in find(fn, "ts_lexer_finish(&self->lexer, &lookahead_end_byte)")]
+        stops = [pt for pt, n in find(fn, "ts_lexer_reset(&self->lexer, _)")] + [pt for pt, n in find(fn, "ts_lexer_start(&self->lexer)")]
+        abort = [pt for pt, e in fn.points() if e.get("k") == "ret" and strip(e["e"]).get("k") == "init"]
+        ctx.floor("scan calls in ts_parser__lex", len(scans), 2)
+        ctx.after("P2", "ts_parser__lex:finish-after-every-scan", fn, scans, fin,
+                  "every scan is followed by ts_lexer_finish(&lexer, &lookahead_end_byte) before the lexer is repositioned (only the scanner-error abort is exempt)",
+                  stop_pts=stops, exempt_pts=abort)
+        n_la = 0
+        for pt, e in fn.points():
+            if e.get("k") == "decl" and e["name"] == "lookahead_bytes":
+                n_la += 1
+                if any(x.get("k") == "ref" and x["name"] == "lookahead_end_byte" for x in walk(e.get("init") or {})):
+                    ctx.ok("P2", "ts_parser__lex:lookahead_bytes#%d" % n_la, "lookahead_bytes at %s is computed from lookahead_end_byte" % fn.loc(pt))
+                else:
+                    ctx.bad("P2", "ts_parser__lex:lookahead_bytes#%d" % n_la, "lookahead_bytes at %s does not depend on lookahead_end_byte: bytes the lexer examined are not accounted for" % fn.loc(pt))
+        ctx.floor("lookahead_bytes computations", n_la, 2)
+        for ctor in ("ts_subtree_new_error", "ts_subtree_new_leaf"):
+            c = [n for pt, n in find(fn, ctor + "(...)")]
+            if c and any(strip(a).get("k") == "ref" and strip(a)["name"] == "lookahead_bytes" for a in c[0]["a"]):
+                ctx.ok("P2", "ts_parser__lex:%s-gets-lookahead_bytes" % ctor, "%s receives lookahead_bytes" % ctor)
+            else:
+                ctx.bad("P2", "ts_parser__lex:%s-gets-lookahead_bytes" % ctor, "%s in ts_parser__lex is no longer given lookahead_bytes" % ctor)
+        rets = [pt for pt, e in fn.points() if e.get("k") == "ret" and strip(e["e"]).get("k") == "ref"]
+        ctx.gate("P2", fn, rets, [("an external token carries the scanner state it was produced with",
+                                   [("found_external_token", False), ("skipped_error", True), ("ts_external_scanner_state_init(&_->external_scanner_state, self->lexer.debug_buffer, external_scanner_state_len)", "stmt")])],
+                 accept_desc="returning the token")
+        ctx.gate("P2", fn, rets, [("…and whether that state changed",
+                                   [("found_external_token", False), ("skipped_error", True), ("_->has_external_scanner_state_change = external_scanner_state_changed", "stmt")])],
+                 accept_desc="returning the token")
+    # ---------------- P4: summaries the reuse checks read --------------------------------------
+    fn = ctx.need_fn(F, "ts_subtree_summarize_children")
+    if fn:
+        table = [
+            ("lookahead_bytes", "self.ptr->lookahead_bytes = _", "ts_subtree_lookahead_bytes(child)"),
+            ("has_external_tokens", "self.ptr->has_external_tokens = 1", None),
+            ("depends_on_column", "self.ptr->depends_on_column = 1", None),
+        ]
+        st = find(fn, "self.ptr->lookahead_bytes = _")
+        le = fn.ids_named("child_lookahead_end_byte")
+        d = fn.single_def(le[0]) if le else None
+        if st and d is not None and any(x.get("k") == "call" and x.get("fn") == "ts_subtree_lookahead_bytes" for x in walk(d)):
+            ctx.ok("P4", "summarize:lookahead_bytes", "a parent's look-ahead covers the furthest look-ahead of any child")
+        else:
+            ctx.bad("P4", "summarize:lookahead_bytes", "ts_subtree_summarize_children no longer derives lookahead_bytes from the children's look-ahead")
+        for label, stmt, test in (("has_external_tokens", "self.ptr->has_external_tokens = 1", "ts_subtree_has_external_tokens(child)"),
+                                  ("depends_on_column", "self.ptr->depends_on_column = 1", "ts_subtree_depends_on_column(child)"),
+                                  ("has_external_scanner_state_change", "self.ptr->has_external_scanner_state_change = 1", "ts_subtree_has_external_scanner_state_change(child)")):
+            pts = [pt for pt, n in find(fn, stmt)]
+            ctx.gate("P4", fn, pts, [("%s is inherited from a child" % label, test, True)], accept_desc="setting " + label)
+        err = [pt for pt, n in find(fn, "self.ptr->parse_state = 65535")]
+        ctx.gate("P4", fn, err, [("a parent of an error child gets no parse state (never reused as a unit by state)", "ts_subtree_is_error(child)", True)], accept_desc="clearing parse_state")
+        frag = [pt for pt, n in find(fn, "self.ptr->fragile_left = _")]
+        ctx.floor("fragile_left stores in the summariser", len(frag), 2)
+    fn = ctx.need_fn(F, "ts_parser__reduce")
+    if fn:
+        fl = [pt for pt, n in find(fn, "_.ptr->fragile_left = 1")]
+        ps = [pt for pt, n in find(fn, "_.ptr->parse_state = 65535")]
+        ctx.floor("fragile marking in ts_parser__reduce", len(fl), 1)
+        ctx.gate("P4", fn, fl + ps, [("nodes built under ambiguity are fragile and stateless",
+                                      [("is_fragile", True), ("pop.size > 1", True), ("initial_version_count > 1", True)])], accept_desc="marking the new parent fragile")
+
+        class FragMon(Monitor):
+            def elem(self, m, pt, e, s):
+                if pt in fl:
+                    return False
+                return m
+
+            def edge(self, m, bid, edge, cond, truth, s):
+                if cond is not None and truth is not None:
+                    for p in ("is_fragile", "pop.size > 1", "initial_version_count > 1"):
+                        if s.m.cond_matches(p, True, cond, truth):
+                            return True
+                return m
+        push = [pt for pt, n in find(fn, "ts_stack_push(self->stack, slice_version, ts_subtree_from_mut(parent), 0, next_state)")]
+
+        class FragMon2(FragMon):
+            def elem(self, m, pt, e, s):
+                if pt in push and m:
+                    return Viol("a parent built under ambiguity is pushed without being marked fragile", pt)
+                return FragMon.elem(self, m, pt, e, s)
+        for cnd, why in (("is_fragile", "the reduction was one of several actions"), ("pop.size > 1", "several stack paths were popped"), ("initial_version_count > 1", "several stack versions exist")):
+            ctx.gate("P4", fn, push, [("parent left non-fragile only when not (%s)" % why, [(cnd, False), ("_.ptr->fragile_left = 1", "stmt")])], accept_desc="pushing the reduced parent")
+        if push:
+            s = Search(fn, FragMon2())
+            v = s.run(False)
+            if v is None:
+                ctx.ok("P4", "ts_parser__reduce:ambiguity-implies-fragile", "whenever is_fragile || pop.size > 1 || initial_version_count > 1 holds, the new parent is marked fragile before it is pushed (%d states)" % s.states)
+            else:
+                ctx.bad("P4", "ts_parser__reduce:ambiguity-implies-fragile", "ts_parser__reduce: %s" % v.msg, {"path": s.render_path(v.path)[-8:]})
+        else:
+            ctx.bad("P4", "ts_parser__reduce:push-anchor", "push of the reduced parent not found")
+
+
 def run(ctx):
     for cfg in configs(ctx):
         ctx.config = cfg
         F = ctx.extract.cfacts(cfg)
         ctx.analysed["c_functions_" + cfg] = len(F.fn_list)
         rules_c(ctx, F)
+        rules_pairing(ctx, F)
     import rsrules
     rsrules.c01_rust(ctx)
     return ctx.finish(
